@@ -78,6 +78,23 @@ def base(draw, tier, max_atoms=32):
     return b
 
 
+def partial(F, kind):
+    """Arrays that already obey SOME of the invariances (a symmetriser must still impose the others)."""
+    if kind == "drift_free":  # zero row and column sums, not permutation symmetric
+        F = F - F.mean(axis=1, keepdims=True)
+        F = F - F.mean(axis=0, keepdims=True)
+        return F
+    if kind == "perm_only":  # permutation symmetric, with drift
+        return (F + F.transpose(1, 0, 3, 2)) / 2
+    if kind == "sparse":  # a few non-zero blocks
+        G = np.zeros_like(F)
+        n = F.shape[0]
+        G[0, n - 1] = F[0, n - 1]
+        G[n // 2, 0] = F[n // 2, 0]
+        return G
+    return F
+
+
 def _mult_class(ph):
     N = len(ph.supercell) // len(ph.primitive)
     return "N_even" if N % 2 == 0 else "N_odd"
@@ -104,22 +121,26 @@ def run_full(spec):
     ph.symmetrize_force_constants(level=level, show_drift=False)
     if np.abs(ph.force_constants - fcs).max() / sc > 1e-12:
         return Out(ok=False, msg="Phonopy.symmetrize_force_constants changes already-symmetric force constants")
-    # arbitrary (non-periodic) input
-    fr = rng.normal(size=(n, n, 3, 3)) * spec.get("scale", 1.0)
-    f = fr.copy()
-    symmetrize_force_constants(f, level=level)
-    s0 = np.abs(f).max()
-    row = np.abs(f.sum(axis=1)).max() / s0
-    col = np.abs(f.sum(axis=0)).max() / s0
-    perm = np.abs(f - f.transpose(1, 0, 3, 2)).max() / s0
-    if max(row, col, perm) > 1e-11:
-        return Out(ok=False, msg="output of symmetrize_force_constants(level=%d) violates invariances: row sum %.2e, column sum %.2e, "
-                                 "permutation %.2e" % (level, row, col, perm))
-    g = f.copy()
-    symmetrize_force_constants(g, level=level)
-    idem = np.abs(g - f).max() / s0
-    if idem > 1e-11:
-        return Out(ok=False, msg="symmetrize_force_constants(level=%d) is not idempotent: %.3e" % (level, idem))
+    # arbitrary (non-periodic) input, also input that already obeys only part of the invariances
+    worst = 0.0
+    for kind in ("random", "drift_free", "perm_only", "sparse"):
+        fr = partial(rng.normal(size=(n, n, 3, 3)) * spec.get("scale", 1.0), kind)
+        f = fr.copy()
+        symmetrize_force_constants(f, level=level)
+        s0 = max(np.abs(f).max(), np.abs(fr).max())
+        row = np.abs(f.sum(axis=1)).max() / s0
+        col = np.abs(f.sum(axis=0)).max() / s0
+        perm = np.abs(f - f.transpose(1, 0, 3, 2)).max() / s0
+        if max(row, col, perm) > 1e-11:
+            return Out(ok=False, msg="output of symmetrize_force_constants(level=%d) on %s input violates invariances: row sum %.2e, column sum %.2e, "
+                                     "permutation %.2e" % (level, kind, row, col, perm))
+        g = f.copy()
+        symmetrize_force_constants(g, level=level)
+        idem = np.abs(g - f).max() / s0
+        if idem > 1e-11:
+            return Out(ok=False, msg="symmetrize_force_constants(level=%d) is not idempotent on %s input: %.3e" % (level, kind, idem))
+        worst = max(worst, row, col, perm, idem)
+    row = col = perm = idem = worst
     return Out(ok=True, nontrivial=n >= 2, classes=["level:%d" % level, _mult_class(ph)],
                info={"err": max(e, row, col, perm, idem)})
 
@@ -188,6 +209,9 @@ def run_compact(spec):
         comp = np.array(full[p2s], order="C")
     else:
         full, comp = periodic_random(rng, p2s, tperms, n)
+        if spec["array"] in ("drift_free", "perm_only"):
+            full = partial(full, spec["array"])
+            comp = full[p2s]
         comp = np.array(comp, order="C")
     sc = np.abs(full).max()
     classes = [spec["array"], "level:%d" % spec["level"], _mult_class(ph)]
@@ -243,7 +267,7 @@ def run_compact(spec):
 @st.composite
 def compact_specs(draw, tier):
     b = draw(base(tier))
-    b["array"] = draw(st.sampled_from(["periodic", "periodic", "symmetric"]))
+    b["array"] = draw(st.sampled_from(["periodic", "periodic", "symmetric", "drift_free", "perm_only"]))
     b["via_api"] = draw(st.booleans())
     return b
 
